@@ -23,6 +23,9 @@ Exhaustive sweeps of the domain shared with `datetime`:
              create_with_current_culture, with_culture, and repr / str / format(v, '') where they give an ISO letter's
              text) repeated with CultureInfo.current_culture in {fi-FI, da-DK, th-TH, ko-KR, ar-SA}: same text, and the
              ISO text still parses
+  interposed a catalogue of calls that fail part-way (None, wrong type, values that stop answering after k attribute
+             reads, another pattern failing, repr of an unnameable month, garbage parse, raising builder) at every
+             position of a format sequence of every built-in / ISO letter: later answers unchanged
   consecutive  values with equal hash() but different value (found at run time on a lattice) formatted back to back
              through each built-in
   beyond     years <= 0 (outside the shared domain): sign and width rule '-YYYY', round trip inside the library
@@ -131,12 +134,18 @@ def decode_time(text):
     return int(m.group(1)), int(m.group(2)), int(m.group(3)), int(frac.ljust(9, "0")) if frac else 0, len(frac)
 
 
+FRACTIONS_THOROUGH = FRACTIONS + (100_000_000, 120_000_000, 999_999_000, 999, 1_001, 10, 999_999)
+
+
 def time_worker(hour):
+    fractions = FRACTIONS
+    if isinstance(hour, tuple):
+        hour, fractions = hour[0], FRACTIONS_THOROUGH
     acc = Acc()
     ext, long_, gen = LocalTimePattern.extended_iso, LocalTimePattern.long_extended_iso, LocalTimePattern.general_iso
     for minute in range(60):
         for second in range(60):
-            for ns in FRACTIONS:
+            for ns in fractions:
                 acc.count(states=1)
                 case = {"time": (hour, minute, second, ns)}
                 lt = LocalTime.from_hour_minute_second_nanosecond(hour, minute, second, ns)
@@ -298,7 +307,8 @@ def _fraction_case(acc, ns, idx, via_stdlib):
 
 
 def fraction_worker(task):
-    mode, lo, hi = task
+    mode, lo, hi = task[:3]
+    stride = task[3] if len(task) > 3 else NS_STRIDE
     acc = Acc()
     if mode == "us":                       # every microsecond value, text as written by time.isoformat()
         for us in range(lo, hi):
@@ -308,7 +318,7 @@ def fraction_worker(task):
             _fraction_case(acc, ns, ns, False)
     elif mode == "ns-stride":              # 1-in-997 stride over all 10^9
         for i in range(lo, hi):
-            _fraction_case(acc, i * NS_STRIDE, i, False)
+            _fraction_case(acc, i * stride, i, False)
     else:                                  # d*10^k and neighbours
         for i, ns in enumerate(POW_VALUES):
             _fraction_case(acc, ns, i * 8, False)
@@ -433,6 +443,41 @@ def datetime_worker(part):
     return acc
 
 
+def every_date_time_worker(rng):
+    """Thorough tier: every date of years 1..9999 combined with one boundary time (rotating), through the
+    LocalDateTime and Instant ISO patterns, both directions, against the standard library's writer / reader."""
+    lo, hi = rng
+    acc = Acc()
+    L, I = LocalDateTimePattern, InstantPattern
+    for o in range(lo, hi):
+        d = dt.date.fromordinal(o)
+        h, mi, sec, ns = BOUNDARY_TIMES[o % len(BOUNDARY_TIMES)]
+        ns -= ns % 1000
+        acc.count(states=1, transitions=6, evaluations=6)
+        std = dt.datetime(d.year, d.month, d.day, h, mi, sec, ns // 1000)
+        ldt = LocalDate(d.year, d.month, d.day) + LocalTime.from_hour_minute_second_nanosecond(h, mi, sec, ns)
+        ins = Instant.from_utc(d.year, d.month, d.day, h, mi, sec).plus_nanoseconds(ns)
+        exp = "%s%s" % (std.replace(microsecond=0).isoformat(), frac_text(ns))
+        case = {"ordinal": o, "every_date_time": (h, mi, sec, ns)}
+        ok = True
+        for name, pat, val, want in (("datetime/extended_iso", L.extended_iso, ldt, exp), ("instant/extended_iso", I.extended_iso, ins, exp + "Z"),
+                                     ("datetime/general_iso", L.general_iso, ldt, exp[:19]), ("instant/general", I.general, ins, exp[:19] + "Z")):
+            t = guard(acc, "C17/every-date/%s/format" % name, case, lambda: pat.format(val))
+            if t is not None and t != want:
+                ok = False
+                acc.violation("C17/every-date/%s/format/%s" % (name, year_class(d.year)), "%s.format = %r, ISO text is %r" % (name, t, want), case)
+        st = std.isoformat()
+        for name, pat, val, text in (("datetime/extended_iso", L.extended_iso, ldt, st), ("instant/extended_iso", I.extended_iso, ins, st + "Z")):
+            r = guard(acc, "C17/every-date/%s/parse" % name, dict(case, text=text), lambda: pat.parse(text))
+            if r is not None and not (r.success and r.value == val):
+                ok = False
+                acc.violation("C17/every-date/%s/parse/%s" % (name, year_class(d.year)), "%s.parse(%r) fails or differs" % (name, text), dict(case, text=text))
+        if ok:
+            acc.count(nontrivial=1)
+    acc.outcome("every date x one time: ISO texts agree in both directions", acc.nontrivial)
+    return acc
+
+
 # ---------------------------------------------------------------------------------------------------------------
 # offsets
 # ---------------------------------------------------------------------------------------------------------------
@@ -444,8 +489,12 @@ EXTRA_OFFSET_SECONDS = (1, -1, 59, -59, 61, 3599, -3601, 19815, -45296, 64799, -
 def offset_worker(part):
     acc = Acc()
     g, gz = OffsetPattern.general_invariant, OffsetPattern.general_invariant_with_z
-    minutes = range(-1080 + part, 1081, 4)
-    secs = [m * 60 for m in minutes] + (list(EXTRA_OFFSET_SECONDS) if part == 0 else [])
+    if isinstance(part, tuple):                 # thorough tier: every second of [lo, hi)
+        secs = list(range(part[1], part[2]))
+        part = -1
+    else:
+        minutes = range(-1080 + part, 1081, 4)
+        secs = [m * 60 for m in minutes] + (list(EXTRA_OFFSET_SECONDS) if part == 0 else [])
     for sec in secs:
         acc.count(states=1)
         case = {"offset_seconds": sec}
@@ -793,6 +842,24 @@ def ambient_worker(cname):
     return acc
 
 
+def interposed_worker(idx):
+    """A failing call (c07.failing_calls catalogue) placed at every position of a format sequence of a built-in."""
+    from vf.checks import c07
+    acc = Acc()
+    pats = builtin_patterns()
+    kind, name, pat = pats[idx]
+    label = "%s.%s" % (PATTERN_CLASSES[kind], name)
+    c07.interposed_check(acc, "C17", kind, label, pat, ambient_values(kind))
+    cls = getattr(_tx, PATTERN_CLASSES[kind])
+    if idx == next(i for i, p in enumerate(pats) if p[0] == kind):
+        for L in ISO_LETTERS.get(kind, ""):
+            p2 = guard(acc, "C17/interposed/create", {"letter": L}, lambda: cls.create_with_invariant_culture(L))
+            if p2 is not None:
+                c07.interposed_check(acc, "C17", kind, "%s %r" % (PATTERN_CLASSES[kind], L), p2, ambient_values(kind))
+    acc.outcome("interposed failing calls leave later answers unchanged", acc.nontrivial)
+    return acc
+
+
 def consecutive_worker(idx):
     """Hash-colliding values (found at run time, see c07.collision_groups) formatted back to back through a built-in."""
     from vf.checks import c07
@@ -848,7 +915,9 @@ def rotate(lst, k):
 
 def run(ctx):
     only = getattr(ctx, "only", None)
-    ctx.rule = ("nontrivial = (value, pattern) pairs whose library text passed the shape rule AND was read back to the same value "
+    ctx.rule = ("[quick: all dates, all seconds x 7 fractions, 10^6 microsecond values + 10^5 low ns + 1-in-997 ns stride, whole-minute "
+                "offsets; thorough adds: all seconds x 14 fractions, 10^6 low ns + 1-in-97 ns stride (10.3 M), every offset second, "
+                "every date x one time through the date-time / instant patterns] nontrivial = (value, pattern) pairs whose library text passed the shape rule AND was read back to the same value "
                 "by the standard library (dates: text equals date.isoformat() and the library parses it back; times: counted "
                 "once per value on extended_iso)")
     ctx.assumptions = [
@@ -861,24 +930,30 @@ def run(ctx):
         shards = list(chunks(1, MAX_ORD + 1, 60_000))
         for acc in pmap(date_worker, rotate(shards, ctx.seed)):
             ctx.merge_part("dates", acc)
+    thorough = ctx.tier == "thorough"
     if not only or "times" in only:
-        for acc in pmap(time_worker, rotate(range(24), ctx.seed)):
+        for acc in pmap(time_worker, rotate([(h, "all") for h in range(24)] if thorough else range(24), ctx.seed)):
             ctx.merge_part("times", acc)
     if not only or "fractions" in only:
         tasks = [("us", a, b) for a, b in chunks(0, 1_000_000, 25_000)]
-        tasks += [("ns-low", a, b) for a, b in chunks(0, 100_000, 25_000)]
-        nstride = (10**9 + NS_STRIDE - 1) // NS_STRIDE
-        tasks += [("ns-stride", a, b) for a, b in chunks(0, nstride, 25_000)]
+        tasks += [("ns-low", a, b) for a, b in chunks(0, 1_000_000 if thorough else 100_000, 25_000)]
+        stride = 97 if thorough else NS_STRIDE
+        nstride = (10**9 + stride - 1) // stride
+        tasks += [("ns-stride", a, b, stride) for a, b in chunks(0, nstride, 25_000)]
         tasks += [("pow", 0, 0)]
         for acc in pmap(fraction_worker, rotate(tasks, ctx.seed)):
             ctx.merge_part("fractions", acc)
-        ctx.note("fraction_space", {"microseconds": 1_000_000, "ns_below_100000": 100_000, "ns_stride_997": nstride, "powers": len(POW_VALUES)})
+        ctx.note("fraction_space", {"microseconds": 1_000_000, "ns_low": 1_000_000 if thorough else 100_000, "ns_stride": stride, "ns_stride_values": nstride, "powers": len(POW_VALUES)})
     if not only or "datetimes" in only:
         for acc in pmap(datetime_worker, range(4)):
             ctx.merge_part("datetimes", acc)
     if not only or "offsets" in only:
-        for acc in pmap(offset_worker, range(4)):
+        tasks = list(range(4)) + ([("sec", a, b) for a, b in chunks(-64800, 64801, 8000)] if thorough else [])
+        for acc in pmap(offset_worker, tasks):
             ctx.merge_part("offsets", acc)
+    if thorough and (not only or "every-date" in only):
+        for acc in pmap(every_date_time_worker, rotate(list(chunks(1, MAX_ORD + 1, 60_000)), ctx.seed)):
+            ctx.merge_part("every-date", acc)
     if not only or "builtins" in only:
         n = len(builtin_patterns())
         ctx.note("builtins_count", n)
@@ -892,6 +967,9 @@ def run(ctx):
         order = sorted(range(len(pats)), key=lambda i: (pats[i][0] not in ("datetime", "instant"), i))
         for acc in pmap(consecutive_worker, order):
             ctx.merge_part("consecutive", acc)
+    if not only or "interposed" in only:
+        for acc in pmap(interposed_worker, range(len(builtin_patterns()))):
+            ctx.merge_part("interposed", acc)
     if not only or "beyond" in only:
         for acc in pmap(beyond_worker, [0]):
             ctx.merge_part("beyond", acc)
@@ -907,7 +985,9 @@ def replay(rec) -> bool:
     key = rec.get("key", "")
     case = rec.get("case") or {}
     found = {}
-    if "ordinal" in case:
+    if "every_date_time" in case:
+        found.update(every_date_time_worker((case["ordinal"], case["ordinal"] + 1)).violations)
+    elif "ordinal" in case:
         found.update(date_worker((case["ordinal"], case["ordinal"] + 1)).violations)
     elif "fraction_ns" in case:
         a = Acc()
@@ -917,6 +997,9 @@ def replay(rec) -> bool:
     elif "route" in case:
         for c in AMBIENT_CULTURES:
             found.update(ambient_worker(c).violations)
+    elif "failing_call" in case:
+        for i in range(len(builtin_patterns())):
+            found.update(interposed_worker(i).violations)
     elif "group" in case:
         for i in range(len(builtin_patterns())):
             found.update(consecutive_worker(i).violations)
